@@ -34,7 +34,7 @@ RULE = (
     "least one serial-dilution column (dilution_steps >= 1) is returned; distinct = distinct parameter/configuration hashes"
 )
 ASSUMPTIONS = [
-    "vmax values are whole microlitres (non-integer vmax is outside the generated space)",
+    "vmax values are mostly whole microlitres; non-integer vmax is generated for the planner rules (v <= vmax), the executed stream uses whole numbers",
     "execution uses empty plates with min_volume = 0 and troughs holding at least v_stock / v_diluent above their "
     "min_volume; v_destination never exceeds what the plan leaves in any well",
     "the emitted worklist records are not judged here (C01/C09 do that); only the tracked labware state is",
@@ -61,6 +61,10 @@ def _gen_vmax(rng, C, small=False):
     pool = [100, 100, 150, 200, 250, 300, 500, 1000] if small else [100, 100, 150, 200, 300, 500, 1000, 1500, 2000]
     hi = 1000 if small else 2000
     kind = rng.choice(["scalar", "scalar", "scalar1", "list", "list", "list_same"])
+    if rng.random() < 0.06:
+        # column volumes that are no whole number of microlitres (187.5 uL, a measured 250.7 uL)
+        x = rng.choice([187.5, 250.7, 100.6, 99.5, 333.3, 15.9 + 100, rng.randint(100, hi) + rng.choice([0.5, 0.25, 0.7, 0.9])])
+        return x if rng.random() < 0.6 else [x] + [rng.choice(pool) for _ in range(C - 1)]
     if kind == "scalar":
         return rng.choice(pool + [rng.randint(100, hi)])
     if kind == "scalar1":
